@@ -147,7 +147,7 @@ class Sym:
             return NotImplemented
         if q is None:
             return float("nan")
-        return Sym(f(self.p, q))
+        return Sym(compact(f(self.p, q)))
 
     def __add__(self, o):
         return self._bin(o, lambda a, b: a + b)
@@ -161,7 +161,12 @@ class Sym:
         return self._bin(o, lambda a, b: b - a)
 
     def __mul__(self, o):
-        return self._bin(o, lambda a, b: a * b)
+        q = lift(o)
+        if q is NotImplemented:
+            return NotImplemented
+        if q is None:
+            return float("nan")
+        return Sym(compact(mul_bounded(self.p, q)))
 
     __rmul__ = __mul__
 
@@ -177,7 +182,7 @@ class Sym:
             return NotImplemented
         if q is None:
             return float("nan")
-        return Sym(self.p * reciprocal(q))
+        return Sym(compact(mul_bounded(self.p, reciprocal(q))))
 
     def __rtruediv__(self, o):
         q = lift(o)
@@ -185,7 +190,7 @@ class Sym:
             return NotImplemented
         if q is None:
             return float("nan")
-        return Sym(q * reciprocal(self.p))
+        return Sym(compact(mul_bounded(q, reciprocal(self.p))))
 
     def __pow__(self, e):
         if isinstance(e, Sym):
@@ -199,9 +204,13 @@ class Sym:
             e = int(e)
         if isinstance(e, (int, np.integer)):
             e = int(e)
-            if e >= 0 or self.p.is_monomial():
+            if self.p.is_monomial() or e in (0, 1):
                 return Sym(self.p ** e)
-            return Sym(reciprocal(self.p) ** (-e))
+            base = self.p if e > 0 else reciprocal(self.p)
+            r = base
+            for _ in range(abs(e) - 1):
+                r = compact(mul_bounded(r, base))
+            return Sym(r)
         if isinstance(e, (float, np.floating, Fraction)):
             fr = Fraction(e).limit_denominator(64)
             if float(fr) != float(e):
@@ -302,7 +311,7 @@ class Sym:
         raise EngineError("symbolic value used as index")
 
     def __format__(self, spec):
-        return f"<{self}>"
+        return "<" + repr(self) + ">"
 
     def __repr__(self):
         try:
@@ -316,6 +325,63 @@ class Sym:
 
 
 # ---------------------------------------------------------------------------------------
+# let-binding of large intermediate expressions ("aliases"): keeps every polynomial bounded; the defining
+# equation  alias == expression  is an ordinary assumption the solver can unfold
+
+ALIAS_TERMS = 128  # a result with more terms than this is replaced by an alias
+ALIAS_PRODUCT = 256  # operands are aliased first when the product would exceed this many terms
+
+
+def alias_poly(p: Poly, why="large expression") -> Poly:
+    c = cur()
+    cache = c.caches.setdefault("alias", {})
+    k = p.key()
+    a = cache.get(k)
+    if a is None:
+        val = c.eval_or_none(p)
+        if p.has_I():
+            re = c.new_var(f"al{len(c.vars)}r", "aux", None if val is None else float(np.real(val)), why)
+            im = c.new_var(f"al{len(c.vars)}i", "aux", None if val is None else float(np.imag(val)), why)
+            a = re + Poly.I() * im
+        else:
+            if isinstance(val, complex):
+                val = val.real
+            a = c.new_var(f"al{len(c.vars)}", "aux", val, why)
+        c.assume("eq", a - p, "def-alias")
+        cache[k] = a
+    return a
+
+
+def compact(p: Poly) -> Poly:
+    if len(p.t) > ALIAS_TERMS and cur_active():
+        lim = cur().options.get("alias_terms", ALIAS_TERMS)
+        if len(p.t) > lim:
+            return alias_poly(p)
+    return p
+
+
+def mul_bounded(a: Poly, b: Poly) -> Poly:
+    la, lb = len(a.t), len(b.t)
+    if la * lb > ALIAS_PRODUCT and cur_active():
+        lim = cur().options.get("alias_product", ALIAS_PRODUCT)
+        if la * lb > lim:
+            if la >= lb and la > 1:
+                a = alias_poly(a)
+                la = 1
+            if la * lb > lim and lb > 1:
+                b = alias_poly(b)
+            elif la * lb > lim and la > 1:
+                a = alias_poly(a)
+    return a * b
+
+
+def cur_active():
+    from .ctx import active
+
+    return active()
+
+
+# ---------------------------------------------------------------------------------------
 # non-polynomial operations -> fresh variables with defining assumptions
 
 
@@ -325,9 +391,14 @@ def reciprocal(q: Poly) -> Poly:
     if q.is_monomial():
         return q.inv_monomial()
     if q.has_I():
+        if len(q.t) > 12:
+            q = alias_poly(q)
         den = (q * q.conj()).real()
-        return q.conj() * reciprocal(den)
+        return mul_bounded(q.conj(), reciprocal(den))
     c = cur()
+    if len(q.t) > 24:
+        q = alias_poly(q)
+        return q.inv_monomial()
     cache = c.caches.setdefault("recip", {})
     k = q.key()
     # normalise sign/scale so that e and -e, 2e share the denominator variable
@@ -355,10 +426,12 @@ def frac_power(q: Poly, e: Fraction) -> Poly:
     if e.denominator == 1:
         n = int(e)
         return q ** n if n >= 0 else reciprocal(q) ** (-n)
-    if q.has_I():
-        raise EngineError("fractional power of a complex value")
     if q.is_zero():
         return ZERO
+    if q.has_I():
+        if e != Fraction(1, 2):
+            raise EngineError("fractional power of a complex value")
+        return complex_sqrt(q)
     if q.is_real_const():
         cv = q.const_value()
         r = float(cv) ** float(e)
@@ -376,9 +449,11 @@ def frac_power(q: Poly, e: Fraction) -> Poly:
             if v < 0:
                 if v > -1e-9:
                     v = 0.0
+                elif not c.on_witness:
+                    v = None
                 else:
                     raise EngineError(f"root of a value negative at the witness ({v})")
-            rv = v ** (1.0 / den)
+            rv = None if v is None else v ** (1.0 / den)
         except EngineError as ex:
             if "no witness" in str(ex):
                 rv = None
@@ -395,10 +470,31 @@ def frac_power(q: Poly, e: Fraction) -> Poly:
     return y.inv_monomial() ** (-n)  # y != 0 is implied where xeofs divides by it
 
 
+def complex_sqrt(q: Poly) -> Poly:
+    """principal square root of a complex value: fresh w with w*w == q and Re(w) >= 0"""
+    c = cur()
+    if len(q.t) > 12:
+        q = alias_poly(q)
+    cache = c.caches.setdefault("csqrt", {})
+    k = q.key()
+    if k not in cache:
+        v = c.eval_or_none(q)
+        wv = None if v is None else np.sqrt(complex(v))
+        re = c.new_var(f"cr{len(c.vars)}", "aux", None if wv is None else float(wv.real), "Re sqrt")
+        im = c.new_var(f"ci{len(c.vars)}", "aux", None if wv is None else float(wv.imag), "Im sqrt")
+        w = re + Poly.I() * im
+        c.assume("eq", w * w - q, "def-complex-sqrt")
+        c.assume("ge", re, "principal branch")
+        cache[k] = w
+    return cache[k]
+
+
 def sym_abs(x: Sym):
     p = x.p
     if p.has_I():
-        return Sym(frac_power((p * p.conj()).real(), Fraction(1, 2)))
+        if len(p.t) > 12:
+            p = alias_poly(p)
+        return Sym(frac_power(compact((p * p.conj()).real()), Fraction(1, 2)))
     if p.is_const():
         return Sym(Poly.const(abs(p.const_value())))
     mode = cur().options.get("abs", "fresh")
@@ -407,10 +503,13 @@ def sym_abs(x: Sym):
             return x
         return Sym(-p)
     c = cur()
+    if len(p.t) > 12:
+        p = alias_poly(p)
     cache = c.caches.setdefault("abs", {})
     k = p.key()
     if k not in cache:
-        v = abs(c.eval(p))
+        v = c.eval_or_none(p)
+        v = None if v is None else abs(v)
         a = c.new_var(f"a{len(c.vars)}", "aux", v, f"|{p.fmt(c.name_of, 6)}|")
         c.assume("eq", a * a - p * p, "def-abs")
         c.assume("ge", a, "abs non-negative")
